@@ -466,7 +466,13 @@ let make_m1 (params : string list) : machine =
   (* the history of the legacy library (LegacyStore.lop), recorded until "legacyend" *)
   let in_legacy = ref (header_param params "legacy" "" <> "") in
   let lops : lop list ref = ref [] in
-  let legacy_note (toks : string list) (before : mstate) (after : mstate) : unit =
+  (* the legacy key space (LegacyStore.ldb): written by the legacy library's history, then
+     carried through the new library's rollbacks and deletions (rollback_legacy, prune_legacy,
+     prune_new_version); None = not tracked (history too long, or an operation the model refuses) *)
+  let ldbr : ldb option ref = ref None in
+  let tree_at (f : (z * node option) list) (v : int) : node option =
+    (match List.find_opt (fun (w, _) -> int_of_z w = v) f with Some (_, t) -> t | None -> None) in
+  let legacy_note (toks : string list) (res : string) (before : mstate) (after : mstate) : unit =
     if !in_legacy then
       (match toks with
        | [ "save" ] ->
@@ -477,7 +483,29 @@ let make_m1 (params : string list) : machine =
            (* executed by the legacy library as DeleteVersion(i) for every retained i <= n, ascending *)
            List.iter (fun (w, _) -> if int_of_z w <= int_of_string n then lops := LDelete w :: !lops) before.forest
        | [ "ldel"; v ] -> lops := LDelete (z_of_string v) :: !lops
-       | [ "legacyend" ] -> in_legacy := false
+       | [ "legacyend" ] ->
+           in_legacy := false;
+           if List.length !lops <= 12 then ldbr := Some (fst (legacy_history_sha (List.rev !lops)))
+       | _ -> ())
+    else
+      (match !ldbr, toks with
+       | Some db, ([ "lvfo"; v ] | [ "wlvfo"; v ]) when res = "ok" ->
+           ldbr := rollback_legacy (legacy_fuel db) db (z_of_int (int_of_string v + 1))
+       | Some db, ([ "prune"; n ] | [ "wprune"; n ]) when res = "ok" || starts_with "wp(ok" res ->
+           let n = int_of_string n in
+           let first = (match before.forest with (w, _) :: _ -> int_of_z w | [] -> 0) in
+           let latest = List.fold_left (fun _ (w, _) -> int_of_z w) 0 before.forest in
+           let l = int_of_z (legacy_latest db) in
+           let db1 = (match prune_legacy_sha db (z_of_int n) (z_of_int first) (z_of_int latest) (tree_at before.forest l) (tree_at before.forest (l + 1)) with
+               | Some d -> Some d | None -> None) in
+           (* the new-format versions deleted by the same call orphan legacy nodes too *)
+           ldbr := (match db1 with
+               | None -> None
+               | Some d ->
+                   Some (List.fold_left (fun d (w, t) ->
+                       let w = int_of_z w in
+                       if w <= n && w > l then prune_new_version_sha d t (tree_at before.forest (w + 1)) else d) d before.forest))
+       | Some _, ([ "dvfrom"; _ ] | "dvreload" :: _ | [ "reopenat"; _; _ ]) -> ldbr := None
        | _ -> ()) in
   let out_of_contract (o : op) : bool =
     not (in_contractb !st o) && (match m_step !st o with (_, XErr) -> false | _ -> true) in
@@ -583,15 +611,17 @@ let make_m1 (params : string list) : machine =
              | XOk -> let s2, x2 = m_step s1 (OLoad (z_of_string v)) in st := s2; show_out x2
              | _ -> st := s1; "err")
         | [ "x"; "lraw" ] ->
-            (* the legacy key space as the legacy library left it: node hashes, orphan records
-               (to.from.hash) and root records of LegacyStore.legacy_history on the recorded history *)
-            if List.length !lops > 12 then "*" (* long histories (profile C16p): the model hashes every subtree afresh *) else
-            let (db, _) = legacy_history_sha (List.rev !lops) in
-            let srt l = List.sort compare l in
-            let ns = srt (List.map (fun (h, _) -> hex_of_bytes h) db.lnodes) in
-            let os = srt (List.map (fun ((t, f), h) -> Printf.sprintf "%d.%d.%s" (int_of_z t) (int_of_z f) (hex_of_bytes h)) db.lorph) in
-            let rs = srt (List.map (fun (v, h) -> Printf.sprintf "%d.%s" (int_of_z v) (hex_of_bytes h)) db.lroots) in
-            "lraw(n=" ^ String.concat "," ns ^ ";o=" ^ String.concat "," os ^ ";r=" ^ String.concat "," rs ^ ")"
+            (* the legacy key space: node hashes, orphan records (to.from.hash) and root records -
+               as the legacy library left it (LegacyStore.legacy_history on the recorded history),
+               and later as the new library's rollbacks and deletions leave it *)
+            (match (if !in_legacy then None else !ldbr) with
+             | None -> "*"
+             | Some db ->
+                 let srt l = List.sort compare l in
+                 let ns = srt (List.map (fun (h, _) -> hex_of_bytes h) db.lnodes) in
+                 let os = srt (List.map (fun ((t, f), h) -> Printf.sprintf "%d.%d.%s" (int_of_z t) (int_of_z f) (hex_of_bytes h)) db.lorph) in
+                 let rs = srt (List.map (fun (v, h) -> Printf.sprintf "%d.%s" (int_of_z v) (hex_of_bytes h)) db.lroots) in
+                 "lraw(n=" ^ String.concat "," ns ^ ";o=" ^ String.concat "," os ^ ";r=" ^ String.concat "," rs ^ ")")
         | "x" :: _ -> "ok"
         | [ "legacyend" ] -> "ok"
         | [ "lprune"; _ ] -> "ok" (* DeleteVersionsTo below the latest legacy version: a documented no-op *)
@@ -988,7 +1018,7 @@ let make_m1 (params : string list) : machine =
   { step = (fun toks ->
         prev := !st;
         let r = step1 toks in
-        legacy_note toks !prev !st;
+        legacy_note toks r !prev !st;
         (* out-of-contract operations raise above; a failed model step changes nothing below *)
         if Sys.getenv_opt "VERIF_NOFMIRROR" = None then fmirror toks;
         memo_mirror toks r);
